@@ -776,6 +776,7 @@ PrC10_AllTerminal == Pr!C10_AllTerminal
 PrC10_NoGhosts == Pr!C10_NoGhosts
 PrC10_SameSet == Pr!C10_SameSet
 PrC10_FinishedFaithful == Pr!C10_FinishedFaithful
+PrC10_NoGhostCapacity == Pr!C10_NoGhostCapacity
 PrC11_AllTerminal == Pr!C11_AllTerminal
 PrC11_StoreMatches == Pr!C11_StoreMatches
 PrC11_RejectAfter == Pr!C11_RejectAfter
